@@ -16,6 +16,8 @@ CONSTANTS Mode
 Shapes == { [name |-> "D_unit", type |-> "DOUBLE", m |-> 0], [name |-> "D_neg", type |-> "DOUBLE", m |-> 0],
             [name |-> "D_log", type |-> "DOUBLE", m |-> 0], [name |-> "D_revlog", type |-> "DOUBLE", m |-> 0],
             [name |-> "D_single", type |-> "DOUBLE", m |-> 0], [name |-> "D_shift1", type |-> "DOUBLE", m |-> 0], [name |-> "D_sym1", type |-> "DOUBLE", m |-> 0],
+            \* bounds that are not float32 numbers (float32(hi) > hi, float32(lo) < lo): decoding in float32 must still land inside
+            [name |-> "D_f32hi", type |-> "DOUBLE", m |-> 0], [name |-> "D_f32lo", type |-> "DOUBLE", m |-> 0],
             [name |-> "I_small", type |-> "INTEGER", m |-> 6], [name |-> "I_wide", type |-> "INTEGER", m |-> 41],
             [name |-> "S_three", type |-> "DISCRETE", m |-> 3], [name |-> "S_twelve", type |-> "DISCRETE", m |-> 12],
             [name |-> "C_three", type |-> "CATEGORICAL", m |-> 3], [name |-> "C_single", type |-> "CATEGORICAL", m |-> 1],
